@@ -24,7 +24,7 @@ import (
 // RealScenario: the same question as the interrupt engine, on real loopback sockets (UDP, DTLS-PSK,
 // TCP, TLS) against the library's own servers, in real time.
 type RealScenario struct {
-	Kind      string `json:"kind"`      // udp | dtls | tcp | tls | discover
+	Kind      string `json:"kind"`      // udp | dtls | tcp | tls | discover | tls-silent
 	Op        string `json:"op"`        // get | observe
 	Interrupt string `json:"interrupt"` // cancel | deadline | close | serverstop
 	Closers   int    `json:"closers"`
@@ -36,6 +36,9 @@ const realAllowance = 5 * time.Second
 func execRealOnce(sc RealScenario) *evid.Failure {
 	if sc.Kind == "discover" {
 		return execDiscover(sc)
+	}
+	if sc.Kind == "tls-silent" {
+		return execTLSSilent(sc)
 	}
 	router := mux.NewRouter()
 	_ = router.Handle("/hold", mux.HandlerFunc(func(w mux.ResponseWriter, r *mux.Message) {
@@ -209,11 +212,14 @@ func execReal(sc RealScenario) *evid.Failure {
 
 func genReal(t *rapid.T) RealScenario {
 	sc := RealScenario{
-		Kind:      rapid.SampledFrom([]string{"udp", "dtls", "tcp", "tls", "discover"}).Draw(t, "kind"),
+		Kind:      rapid.SampledFrom([]string{"udp", "dtls", "tcp", "tls", "discover", "tls-silent"}).Draw(t, "kind"),
 		Op:        rapid.SampledFrom([]string{"get", "observe"}).Draw(t, "op"),
 		Interrupt: rapid.SampledFrom([]string{"cancel", "deadline", "close", "serverstop"}).Draw(t, "interrupt"),
 		Closers:   rapid.IntRange(1, 4).Draw(t, "closers"),
 		OnClose:   rapid.IntRange(0, 2).Draw(t, "onclose"),
+	}
+	if sc.Kind == "tls-silent" && sc.Interrupt == "serverstop" {
+		sc.Interrupt = "deadline" // there is no library server on the other side
 	}
 	return sc
 }
